@@ -16,7 +16,7 @@ from ..gen.programs import Cfg
 
 MODULES = ["ESV.Props.C01"]
 THEOREMS = ["ESV.Beh.check_sound", "ESV.Beh.validate_sound", "ESV.C01.routine_validated", "ESV.C01.machines_validated",
-            "ESV.C01.equivalent_halting_trace", "ESV.C01.tables_tied"]
+            "ESV.C01.equivalent_halting_trace", "ESV.C01.tables_tied", "ESV.Beh.Equivalent.trans", "ESV.Beh.Equivalent.symm"]
 
 
 # ---- named shape predicates of INPUT routine sets (only used to match known findings) --------------------------------
